@@ -9,7 +9,7 @@ namespace {
 template <class T> T pickv(std::initializer_list<T> l, Rng &r) { return *(l.begin() + r.below(l.size())); }
 
 enum ItemKind {
-    IT_I32 = 0, IT_U32B, IT_I64, IT_U64B, IT_BOOL, IT_MNEM, IT_TEXT, IT_DOUBLE, IT_FLOAT, IT_BLOCK, IT_SBLOCK, IT_ARRAY, IT_HEADER, IT_SMALL, IT_PUSH, IT_STRAY, IT_NKINDS
+    IT_I32 = 0, IT_U32B, IT_I64, IT_U64B, IT_BOOL, IT_MNEM, IT_TEXT, IT_DOUBLE, IT_FLOAT, IT_BLOCK, IT_SBLOCK, IT_ARRAY, IT_HEADER, IT_SMALL, IT_PUSH, IT_STRAY, IT_BIG, IT_NKINDS
 };
 enum ElemType { E_I8 = 0, E_U8, E_I16, E_U16, E_I32, E_U32, E_I64, E_U64, E_F32, E_F64, E_NTYPES };
 const size_t ELEM_SIZE[E_NTYPES] = {1, 1, 2, 2, 4, 4, 8, 8, 4, 8};
@@ -288,6 +288,39 @@ struct Run {
                     }
                     COUNT("blocks_streamed");
                     if (block_open) COUNT("probe_block_left_incomplete");
+                    break;
+                }
+                case IT_BIG: {
+                    // large block (>= 64 KiB) whose data is really pushed: a1 = length, a2 = piece size (0: one shot), a3 = content seed
+                    size_t len = (size_t) clampl(it.arg(1), 0, 300000);
+                    size_t piece = (size_t) clampl(it.arg(2), 0, 100000);
+                    uint64_t seed = (uint64_t) it.arg(3);
+                    std::string data(len, '\0');
+                    for (size_t k = 0; k < len; k++) data[k] = (char) (mix64(seed + k / 8) >> (8 * (k % 8)));
+                    COUNT("probe_block_of_64k_or_more");
+                    if (piece == 0) {
+                        char *tmp = (char *) malloc(len);
+                        memcpy(tmp, data.data(), len);
+                        SCPI_ResultArbitraryBlock(c, tmp, len);
+                        free(tmp);
+                        check_call("SCPI_ResultArbitraryBlock(big)", ob, enc_block_header(len) + data, true, true);
+                    } else {
+                        SCPI_ResultArbitraryBlockHeader(c, len);
+                        check_call("SCPI_ResultArbitraryBlockHeader(big)", ob, enc_block_header(len), len == 0, true);
+                        size_t pos = 0;
+                        while (pos < len && !v.violated) {
+                            size_t n = std::min(piece, len - pos);
+                            size_t ob2 = w.out.size();
+                            char *tmp = (char *) malloc(n);
+                            memcpy(tmp, data.data() + pos, n);
+                            SCPI_ResultArbitraryBlockData(c, tmp, n);
+                            free(tmp);
+                            pos += n;
+                            check_call("SCPI_ResultArbitraryBlockData(big)", ob2, data.substr(pos - n, n), pos == len, false);
+                        }
+                    }
+                    block_remaining = 0;
+                    block_open = false;
                     break;
                 }
                 case IT_STRAY: {
@@ -606,6 +639,11 @@ void gen_item(Rng &r, Plan &p, bool c17, bool misuse) {
     else
         kind = pickv<int>({IT_I32, IT_U32B, IT_I64, IT_U64B, IT_BOOL, IT_MNEM, IT_TEXT, IT_DOUBLE, IT_FLOAT, IT_BLOCK, IT_SBLOCK, IT_ARRAY, IT_SMALL, IT_I32}, r);
     static const int bases[] = {2, 8, 10, 16, 10, 16};
+    if (c17 && r.chance(1, 1500)) {
+        long len = r.chance(1, 2) ? 65536 + r.range(-2, 6) : (r.chance(1, 2) ? 131072 + r.range(-1, 4) : r.range(60000, 200000));
+        p.ops.push_back(Op("it", {IT_BIG, len, r.chance(1, 3) ? 0 : r.range(500, 70000), (long) r.below(1000000)}));
+        return;
+    }
     switch (kind) {
         case IT_I32: p.ops.push_back(Op("it", {kind, (long) (int32_t) boundary_i64(r, 32)})); break;
         case IT_U32B: p.ops.push_back(Op("it", {kind, (long) (uint32_t) boundary_i64(r, 32), bases[r.below(6)]})); break;
@@ -757,7 +795,7 @@ const Property C17 = {
     gen_c17,
     exec_c17,
     {"arrays_normal", "arrays_swapped", "arrays_ascii", "blocks_streamed", "probe_zero_length_piece", "fault_overlength_block_data", "probe_block_left_incomplete",
-     "probe_empty_binary_array", "probe_three_digit_block_length", "probe_header_nine_digits", "block_headers_only", "probe_data_after_complete_block"},
+     "probe_empty_binary_array", "probe_three_digit_block_length", "probe_header_nine_digits", "block_headers_only", "probe_data_after_complete_block", "probe_block_of_64k_or_more"},
     "handler scripts emitting arrays of all ten element types in NORMAL/SWAPPED/ASCII (0..300 elements, boundary values), blocks one-shot and streamed with seeded piece "
     "sizes incl. zero-length pieces, incomplete and over-length data at any point, header-only calls up to 10^9-1, items after complete/incomplete blocks; every API call's "
     "bytes are compared with an independent shift-based encoder, over-length data must be refused. distinct_nontrivial = distinct canonical trace hashes.",
